@@ -24,6 +24,7 @@ EXPLANATION = (
     "in that function unless a membership test, a comprehension guard or a reasoned table row covers the access. "
     "Implicit exceptions in general (None dereference elsewhere, other KeyErrors, recursion limits) are not decided."
     " Added after seed round 7: E10 add_statement refuses statements and heads that are a Var, Constant, And or Not with a GroundingError (class tests evaluated on the Term hierarchy)."
+    " Added after seed round 8: E11 consult registers the line table of a file before it loads the file."
 )
 TECHNIQUE = "static analysis: import resolution, exception-flow over resolved call graph, handler-coverage tables"
 
